@@ -21,6 +21,7 @@ type SolverStats struct {
 	Unsat     int
 	Unknown   int
 	Fallbacks int
+	Retries   int
 	Time      time.Duration
 	Errors    int
 }
@@ -61,7 +62,12 @@ func (s *Solver) start() {
 		panic(fmt.Sprintf("cannot start solver %s: %v", s.bin, err))
 	}
 	s.inRaw = w
-	s.in = bufio.NewWriterSize(w, 1<<16)
+	var sink io.Writer = w
+	if lf := os.Getenv("QSYM_SOLVERLOG"); lf != "" {
+		f, _ := os.OpenFile(lf, os.O_CREATE|os.O_WRONLY|os.O_APPEND, 0o644)
+		sink = io.MultiWriter(w, f)
+	}
+	s.in = bufio.NewWriterSize(sink, 1<<16)
 	s.out = bufio.NewReaderSize(r, 1<<16)
 	s.emitted = map[int]bool{}
 	s.declUF = map[string]bool{}
@@ -69,8 +75,17 @@ func (s *Solver) start() {
 	s.preamble()
 }
 
+// incTimeout: the incremental (push/pop) core is weak on non-linear arithmetic; give it a short
+// budget and let the one-shot fallback (nlsat) use the full one.
+func (s *Solver) incTimeout() int {
+	if s.timeout > 3000 {
+		return 3000
+	}
+	return s.timeout
+}
+
 func (s *Solver) preamble() {
-	fmt.Fprintf(s.in, "(set-option :timeout %d)\n", s.timeout)
+	fmt.Fprintf(s.in, "(set-option :timeout %d)\n", s.incTimeout())
 }
 
 func (s *Solver) Close() {
@@ -119,7 +134,7 @@ func (s *Solver) emit(t *Term) {
 	if t.op == "uf" && !s.declUF[t.name] {
 		s.declUF[t.name] = true
 		ar := strings.Repeat("Real ", len(t.args))
-		s.sendPerm(fmt.Sprintf("(declare-fun %s (%s) Real)", t.name, ar))
+		s.sendPerm(fmt.Sprintf("(declare-fun uf_%s (%s) Real)", t.name, ar))
 	}
 	s.sendPerm(fmt.Sprintf("(define-fun %s () %s %s)", smtName(t), sortSMT(t.sort, s.bv), bodySMT(t, s.bv)))
 }
@@ -137,8 +152,12 @@ type ModelVal struct {
 	Exact bool
 }
 
+const nlsatTactic = "(then simplify purify-arith qfnra-nlsat)"
+
 // Check decides perm /\ extras. want lists the variables whose model values are needed on sat.
-func (s *Solver) Check(extras []*Term, want []*Term) (res string, model map[string]ModelVal) {
+// nonlinear selects the strategy order: a fresh nlsat pipeline first for non-linear real queries
+// (the incremental core is unreliable on them), the incremental core first otherwise.
+func (s *Solver) Check(extras []*Term, want []*Term, nonlinear bool) (res string, model map[string]ModelVal) {
 	t0 := time.Now()
 	defer func() { s.Stats.Time += time.Since(t0) }()
 	s.Stats.Queries++
@@ -148,21 +167,39 @@ func (s *Solver) Check(extras []*Term, want []*Term) (res string, model map[stri
 	for _, w := range want {
 		s.emit(w)
 	}
-	s.seq++
-	marker := fmt.Sprintf("<<m%d>>", s.seq)
 	s.in.WriteString("(push)\n")
 	for _, e := range extras {
 		s.in.WriteString("(assert " + refSMT(e, s.bv) + ")\n")
 	}
-	s.in.WriteString("(check-sat)\n")
-	fmt.Fprintf(s.in, "(echo \"%s\")\n", marker)
-	s.in.Flush()
-	out := s.readUntil(marker)
-	res = classify(out)
+	plain := "(check-sat)"
+	tactic := fmt.Sprintf("(check-sat-using (try-for %s %d))", nlsatTactic, s.timeout)
+	order := []string{plain, tactic}
+	if nonlinear {
+		order = []string{tactic, plain}
+	}
+	out := ""
+	for i, cmdText := range order {
+		s.seq++
+		marker := fmt.Sprintf("<<m%d>>", s.seq)
+		s.in.WriteString(cmdText + "\n")
+		fmt.Fprintf(s.in, "(echo \"%s\")\n", marker)
+		s.in.Flush()
+		out = s.readUntil(marker)
+		res = classify(out)
+		if s.restarted {
+			break
+		}
+		if res == "sat" || res == "unsat" {
+			break
+		}
+		if i == 0 {
+			s.Stats.Retries++
+		}
+	}
 	if s.dumpDir != "" {
 		s.dump(extras, res)
 	}
-	if res == "sat" && len(want) > 0 {
+	if res == "sat" && len(want) > 0 && !s.restarted {
 		model = s.getValues(want)
 	}
 	if s.restarted {
@@ -170,7 +207,7 @@ func (s *Solver) Check(extras []*Term, want []*Term) (res string, model map[stri
 	} else {
 		s.in.WriteString("(pop)\n")
 	}
-	if res == "unknown" || res == "error" {
+	if res != "sat" && res != "unsat" {
 		if res == "error" {
 			s.Stats.Errors++
 			s.lastErr = out
@@ -215,7 +252,7 @@ func (s *Solver) readUntil(marker string) string {
 	var sb strings.Builder
 	// hard wall-clock guard: z3's soft timeout is not always honoured by nlsat
 	cmd := s.cmd
-	timer := time.AfterFunc(time.Duration(s.timeout+8000)*time.Millisecond, func() {
+	timer := time.AfterFunc(time.Duration(s.incTimeout()+8000)*time.Millisecond, func() {
 		if cmd != nil && cmd.Process != nil {
 			cmd.Process.Kill()
 		}
@@ -485,20 +522,29 @@ func (s *Solver) oneShot(extras []*Term, want []*Term) (string, map[string]Model
 	for _, bin := range []string{"z3", "z3-new"} {
 		out, _ := exec.Command(bin, fmt.Sprintf("-T:%d", secs), "-memory:3000", f.Name()).CombinedOutput()
 		txt := string(out)
-		if strings.Contains(txt, "(error") {
+		verdict := ""
+		rest := ""
+		errBefore := false
+		lines := strings.Split(txt, "\n")
+		for i, l := range lines {
+			l = strings.TrimSpace(l)
+			if l == "sat" || l == "unsat" || l == "unknown" {
+				verdict = l
+				rest = strings.Join(lines[i+1:], "\n")
+				break
+			}
+			if strings.Contains(l, "(error") {
+				errBefore = true
+			}
+		}
+		if errBefore {
 			s.lastErr = txt
 			continue // an old z3 may drop an assertion it cannot handle and still answer
 		}
-		first := txt
-		rest := ""
-		if k := strings.Index(txt, "\n"); k >= 0 {
-			first, rest = txt[:k], txt[k+1:]
-		}
-		first = strings.TrimSpace(first)
-		if first == "unsat" {
+		if verdict == "unsat" {
 			return "unsat", nil
 		}
-		if first == "sat" {
+		if verdict == "sat" {
 			model := map[string]ModelVal{}
 			parseGetValue(rest, want, model)
 			return "sat", model
